@@ -48,7 +48,9 @@ Qed.
 Lemma le_unregister : forall m x1 x2 t, le_upto m x1 x2 -> le_upto m (unregister t x1) (unregister t x2).
 Proof.
   intros m x1 x2 t (Hw & Hs & Hf). split; [|split]; cbn [unregister wk slen flag]; auto.
-  intros v. unfold upd. destruct (Nat.eqb v t); auto.
+  - intros v. unfold upd. destruct (Nat.eqb v t); auto.
+  - intros k0. rewrite (Hw t). destruct (wk x2 t) as [[[k i] w]|]; auto.
+    unfold upd. rewrite (Hs k). destruct (Nat.eqb k0 k); auto.
 Qed.
 
 Lemma le_wadvance : forall c n m t rem ph s x1 x2,
